@@ -67,9 +67,14 @@ class ItextGen:
         self.p_col = rng.choice([0.15, 0.3, 0.5])
         self.p_unlabeled_choice = self.directed.get("p_unlabeled_choice", rng.choice([0.0, 0.0, 0.0, 0.15]))
         self.search_lists = set()
+        self.osm_lists = {}
 
     def text(self, dyn=False):
         s = self.rng.choice(TEXTS)
+        if s != "-" and self.rng.random() < 0.7:
+            # distinct marker texts: a value shown under the wrong language / id / form is noticed
+            self.counter_txt = getattr(self, "counter_txt", 0) + 1
+            s = f"{s}~{self.counter_txt}"
         if dyn:
             s = s + " ${q0}" + self.rng.choice(["", " t"])
         return s
@@ -192,6 +197,19 @@ class ItextGen:
             row["type"] = rng.choice(["select_one_from_file f.csv", "select_multiple_from_file g.xml", "select_one_from_file h.geojson"])
             if rng.random() < 0.1:
                 row["appearance"] = "search('f')"
+        elif r < 0.47:
+            # osm question: its tags (osm sheet) render a label each
+            ln = "tags" + str(len(self.osm_lists))
+            row["type"] = f"osm {ln}"
+            tags = []
+            for i in range(rng.randint(1, 3)):
+                t = {"list_name": ln, "name": rng.choice(["name", "addr", "kind"]) + str(i)}
+                if rng.random() < 0.6:
+                    self.sparse(t, "label", force=True)
+                else:
+                    t["label"] = self.text()
+                tags.append(t)
+            self.osm_lists[ln] = tags
         elif r < 0.52:
             row["type"] = "calculate"
             row["calculation"] = rng.choice(["1 + 1", "${q0}"])
@@ -276,6 +294,8 @@ class ItextGen:
             form["survey_cols"] = head + tail
         if rows:
             form["choices"] = rows
+        if self.osm_lists:
+            form["osm"] = [t for tags in self.osm_lists.values() for t in tags]
         st = {}
         if self.st_dl is not None:
             st["default_language"] = self.st_dl
@@ -373,6 +393,12 @@ def extract(survey) -> dict:
                 d["hasChoices"] = e.choices is not None
                 if e.choices is not None and e.choices.name != e.list_name:
                     raise Unsupported("select whose Itemset is not its list_name")
+            if cls == "OsmUploadQuestion":
+                d["tags"] = []
+                for t in e.children or ():
+                    if getattr(t, "media", None):
+                        raise Unsupported("osm tag with media")
+                    d["tags"].append([t.name, txt_json(t.label)])
             if isinstance(e, Section):
                 d["kids"] = [elem(c) for c in e.children]
         return d
@@ -427,6 +453,7 @@ def observe(xform: str) -> dict:
                 "default": t.get("default"),
                 "ids": [x.get("id") for x in t.findall("x:text", NS)],
                 "forms": [[v.get("form") for v in x.findall("x:value", NS)] for x in t.findall("x:text", NS)],
+                "values": [["".join(v.itertext()) for v in x.findall("x:value", NS)] for x in t.findall("x:text", NS)],
             })
     body_refs, bind_refs, item_ids = [], [], []
     for el in body.iter():
